@@ -127,25 +127,26 @@ Example C02_two_resolutions_mix :
   /\ refs (rx z) 0%nat = [0]%nat /\ refs (rx z) 1%nat = [0; 1]%nat.
 Proof. vm_compute. repeat split. Qed.
 
-(* A transaction that loses a race is retried by the library: EVERY attempt hands the commit protocol the WHOLE queue --
-   each appended file, each path to delete, the largest expiry cutoff, nothing else -- so the version a retried
-   transaction finally publishes shows all of its operations or (while it keeps losing) none.  gen_partition is
-   REGENERATED from Transaction.commit; that each attempt of the retry loop rebuilds it from the untouched queue and that
-   nothing (commit, _commit_file_ops) edits the accumulators afterwards are counted on the source
-   (gen_partition_per_attempt, gen_partition_args_kept); with either fact missing a retried attempt may see what an
-   earlier attempt left (second conjunct: witness). *)
+(* A transaction that loses a race is retried by the library.  What a retried attempt publishes is decided by three things;
+   the first is a theorem, the other two are FACTS COUNTED ON THE SOURCE by translator/gen_fileops.py (booleans that the
+   translator computes from the AST of Transaction.commit / _commit_file_ops on every run -- not theorems about a model of
+   the retry loop, which Coq does not have):
+     (1) gen_partition -- REGENERATED from the partitioning loop -- maps a queue to exactly its appended files, its paths
+         to delete and its largest expiry cutoff, nothing dropped and nothing invented (proved below, for every queue);
+     (2) gen_partition_per_attempt: the three accumulators are initialised and filled INSIDE the body of the retry loop
+         (after that attempt's refresh()), from self._operations, which commit() never edits;
+     (3) gen_partition_args_kept: no statement after the partition loop, in commit() or in _commit_file_ops (which
+         receives them), rebinds, augments, aliases or calls a mutating method on an accumulator.
+   (2) and (3) are what makes every attempt see (1)'s result of the WHOLE queue; when either is false this theorem no
+   longer proves and the check searches for the history (a delete+append transaction losing a race: the scheduled
+   oracle of harness/props/c02.py).  The theorem is the conjunction -- it does not pretend to derive "every attempt". *)
 Theorem C02_retry_whole_queue :
-  (forall scribble ops k,
-     TxQueueProofs.attempt_input GenFileOps.gen_partition_per_attempt GenFileOps.gen_partition_args_kept scribble ops k
-       = GenFileOps.gen_partition ops
-     /\ let '(a, d, e) := GenFileOps.gen_partition ops in
-        (forall f, In f a <-> exists fs, In (Meta.TAppend fs) ops /\ In f fs)
-        /\ (forall p, In p d <-> exists ps, In (Meta.TDelete ps) ops /\ In p ps)
-        /\ (forall c, In (Meta.TExpire c) ops -> exists e', e = Some e' /\ (c <= e')%Z)
-        /\ ((forall c, ~ In (Meta.TExpire c) ops) -> e = None))
-  /\ (exists scribble ops k, TxQueueProofs.attempt_input false true scribble ops k <> GenFileOps.gen_partition ops).
-Proof.
-  exact (conj (fun scribble ops k => conj (TxQueueProofs.every_attempt_whole_queue scribble ops k) (TxQueueProofs.partition_whole_queue ops))
-              TxQueueProofs.retried_attempt_needs_facts).
-Qed.
+  (GenFileOps.gen_partition_per_attempt = true /\ GenFileOps.gen_partition_args_kept = true)
+  /\ forall ops,
+       let '(a, d, e) := GenFileOps.gen_partition ops in
+       (forall f, In f a <-> exists fs, In (Meta.TAppend fs) ops /\ In f fs)
+       /\ (forall p, In p d <-> exists ps, In (Meta.TDelete ps) ops /\ In p ps)
+       /\ (forall c, In (Meta.TExpire c) ops -> exists e', e = Some e' /\ (c <= e')%Z)
+       /\ ((forall c, ~ In (Meta.TExpire c) ops) -> e = None).
+Proof. exact (conj TxQueueProofs.attempt_facts_hold TxQueueProofs.partition_whole_queue). Qed.
 Print Assumptions C02_retry_whole_queue.
